@@ -15,14 +15,18 @@ RULE = ("for each of the 24 classes and random admissible parameters, one multis
         "labelled by role; oracle A: the canonical sets are equal across orders; oracle B: they equal the independent "
         "reference implementation of the documented conditions (pv/ref/conditions.py) - anything unmatched is decided by "
         "an SDP implication test (witness = a (Gram, F) allowed by one side and excluded by the other); thorough tier "
-        "also solves a small PEP under permuted declarations. distinct = distinct (class, #samples, event kinds, "
+        "also solves a small PEP under permuted declarations; attainment: small PEPs over the 8 function classes that have an "
+        "explicit canonical interpolant are solved and the interpolant of the returned samples (pv/interp.py) must pass "
+        "through them and satisfy the definition of its class at random points. distinct = distinct (class, #samples, event kinds, "
         "stationary position)")
 ASSUMPTIONS = ["pv/ref/conditions.py is a faithful transcription of the documented conditions (DESIGN Appendix A)",
                "pv/canon.py and pv/ref/sym.py", "implication SDPs solved to 'optimal' by Clarabel; otherwise inconclusive for that pair",
-               "interpolation theorems trusted as published ('attained by a real member' is not constructed)"]
+               "'attained by a real member' is constructed (pv/interp.py) for the 8 function classes with an explicit canonical "
+               "interpolant; for the operator / linear / quadratic / QG / RSI-EB classes the interpolation theorems are trusted as published"]
 DECIDING_COUNTER = "histories_judged"
 MIN_DECIDED = {"quick": 400, "thorough": 12000}
-REQUIRED_COUNTERS = {"quick": {"classes_covered": 24}, "thorough": {"classes_covered": 24}}
+REQUIRED_COUNTERS = {"quick": {"classes_covered": 24, "interpolants_built": 500},
+                     "thorough": {"classes_covered": 24, "interpolants_built": 8000}}
 NSHARDS = 16
 
 
@@ -32,7 +36,8 @@ def post_merge(counters, extra):
 
 def plan(tier, seed):
     n = 16 if tier == "quick" else 500
-    return [{"name": "s%d" % i, "seed": seed, "shard": i, "n_per_class": n, "solve_permuted": tier == "thorough"}
+    return [{"name": "s%d" % i, "seed": seed, "shard": i, "n_per_class": n, "solve_permuted": tier == "thorough",
+             "n_attain": 16 if tier == "quick" else 200}
             for i in range(NSHARDS)]
 
 
@@ -271,6 +276,158 @@ def implication_gap(target, sense, side_conds, side_lmis, idx):
     return worst, status
 
 
+ATTAIN_CLASSES = ("ConvexFunction", "StronglyConvexFunction", "SmoothConvexFunction", "SmoothStronglyConvexFunction",
+                  "SmoothFunction", "ConvexLipschitzFunction", "ConvexIndicatorFunction", "ConvexSupportFunction")
+
+
+def attainment_case(rng, cls):
+    """A small PEP whose leaf function(s) include one of class cls; solved; returns (problem, value, [(function, cls, params)]).
+    The method is chosen so that the problem is bounded for every admissible parameter."""
+    from PEPit import PEP
+    from PEPit import functions as Fn
+    from PEPit.primitive_steps import proximal_step
+    problem = PEP()
+    N = rng.randint(1, 3)
+    L = rng.choice([1.0, 0.5, 3.0, float(rng.uniform(0.3, 5.0))])
+    mu = L * rng.choice([0.05, 0.2, 0.6, float(rng.uniform(0.01, 0.9))])
+    out = []
+    if cls in ("SmoothConvexFunction", "SmoothStronglyConvexFunction"):
+        prm = {"L": L} if cls == "SmoothConvexFunction" else {"L": L, "mu": mu}
+        f = problem.declare_function(getattr(Fn, cls), **prm)
+        xs = f.stationary_point()
+        fs = f(xs)
+        x = x0 = problem.set_initial_point()
+        problem.set_initial_condition((x0 - xs) ** 2 <= 1)
+        for _ in range(N):
+            x = x - (rng.uniform(0.1, 1.9) / L) * f.gradient(x)
+        metric = rng.choice(["f", "g", "x"])
+        problem.set_performance_metric({"f": f(x) - fs, "g": f.gradient(x) ** 2, "x": (x - xs) ** 2}[metric])
+        out.append((f, cls, prm))
+    elif cls == "SmoothFunction":
+        prm = {"L": L}
+        f = problem.declare_function(Fn.SmoothFunction, **prm)
+        x = x0 = problem.set_initial_point()
+        g, f0 = f.oracle(x0)
+        last_g = g
+        for _ in range(N):
+            last_g = f.gradient(x)
+            x = x - (rng.uniform(0.1, 1.0) / L) * last_g
+        problem.set_initial_condition(f0 - f(x) <= 1)
+        problem.set_performance_metric(last_g ** 2)
+        out.append((f, cls, prm))
+    elif cls in ("ConvexFunction", "StronglyConvexFunction", "ConvexLipschitzFunction"):
+        M = rng.choice([1.0, 0.4, 2.5])
+        prm = {} if cls == "ConvexFunction" else ({"mu": mu} if cls == "StronglyConvexFunction" else {"M": M})
+        f = problem.declare_function(getattr(Fn, cls), **prm)
+        xs = f.stationary_point()
+        fs = f(xs)
+        x = x0 = problem.set_initial_point()
+        problem.set_initial_condition((x0 - xs) ** 2 <= 1)
+        use_subgradient = cls == "ConvexLipschitzFunction" and rng.random() < 0.6
+        fx = None
+        for _ in range(N):
+            if use_subgradient:
+                x = x - rng.uniform(0.1, 1.0) * f.gradient(x)
+            else:
+                x, _g, fx = proximal_step(x, f, rng.uniform(0.2, 3.0))
+        if rng.random() < 0.5 and cls == "ConvexLipschitzFunction":
+            f.gradient(x0)           # a second subgradient at the first point
+        problem.set_performance_metric(f(x) - fs)
+        out.append((f, cls, prm))
+    else:
+        # an indicator / support function as the non-smooth term of a composite problem solved by proximal gradient
+        prm1 = {"L": L, "mu": mu}
+        f = problem.declare_function(Fn.SmoothStronglyConvexFunction, **prm1)
+        if cls == "ConvexIndicatorFunction":
+            prm = {"D": rng.choice([float("inf"), float("inf"), 1.0, 2.5])}
+        else:
+            prm = {"M": rng.choice([float("inf"), 1.0, 0.3])}
+        h = problem.declare_function(getattr(Fn, cls), **prm)
+        F = f + h
+        xs = F.stationary_point()
+        x = x0 = problem.set_initial_point()
+        problem.set_initial_condition((x0 - xs) ** 2 <= 1)
+        if cls == "ConvexIndicatorFunction" and rng.random() < 0.5:
+            x0, _g0, _h0 = proximal_step(x0, h, 1.0)     # start inside the set
+            x = x0
+        for _ in range(N):
+            gam = rng.uniform(0.1, 1.9) / L
+            x, _g, _hx = proximal_step(x - gam * f.gradient(x), h, gam)
+        problem.set_performance_metric((x - xs) ** 2)
+        out.append((h, cls, prm))
+        out.append((f, "SmoothStronglyConvexFunction", prm1))
+    with contextlib.redirect_stdout(io.StringIO()), warnings.catch_warnings():
+        warnings.simplefilter("ignore")
+        val = problem.solve(verbose=0, solver="CLARABEL", return_primal_or_dual="primal")
+    return problem, val, out
+
+
+def attainment(spec, counters, sigs, viol, n_cases):
+    """'a finite primal value is attained by a real member of the class': the explicit canonical interpolant (pv/interp.py)
+    of the samples returned by the solver must reproduce them and must satisfy the definition of its class."""
+    from pv import interp, oracles
+    from pv import driver
+    from pv.monitors import is_optimal_status
+    bd = driver.boundary()
+    for ci, cls in enumerate(ATTAIN_CLASSES):
+        for k in range(n_cases):
+            if "replay" in spec:
+                if spec["replay"].get("attain_cls") != cls or k > 0:
+                    continue
+                sd = spec["replay"]["rng"]
+            else:
+                if (ci + k) % NSHARDS != spec["shard"] and n_cases < NSHARDS:
+                    continue
+                sd = "c04att/%d/%s/%d/%d" % (spec["seed"], cls, spec["shard"], k)
+            rng = random.Random(sd)
+            n0 = len(bd.records)
+            try:
+                problem, val, funcs = attainment_case(rng, cls)
+            except Exception as ex:
+                counters["attainment_exceptions:" + type(ex).__name__] = counters.get("attainment_exceptions:" + type(ex).__name__, 0) + 1
+                continue
+            recs = bd.records[n0:]
+            sts = [str(x["status"]).lower() for r in recs for x in r["inner"]]
+            if val is None or not sts or not all(is_optimal_status(s_) for s_ in sts):
+                counters["attainment_not_optimal"] = counters.get("attainment_not_optimal", 0) + 1
+                continue
+            G = np.asarray(problem.G_value, dtype=float)
+            Fv = np.asarray(problem.F_value, dtype=float)
+            scale = 1.0 + max(float(np.max(np.abs(G))) if G.size else 0.0, float(np.max(np.abs(Fv))) if Fv.size else 0.0)
+            for f, fcls, prm in funcs:
+                trip = [(np.asarray(p.eval(), dtype=float), np.asarray(g.eval(), dtype=float), float(v.eval()))
+                        for (p, g, v) in f.list_of_points]
+                it = interp.build(fcls, prm, trip)
+                if it is None:
+                    continue
+                counters["interpolants_built"] = counters.get("interpolants_built", 0) + 1
+                counters["interpolant:" + fcls] = counters.get("interpolant:" + fcls, 0) + 1
+                try:
+                    rep = it.reproduction_defects()
+                    mem = it.membership_defects(rng)
+                except Exception as ex:
+                    counters["interpolant_evaluation_failed"] = counters.get("interpolant_evaluation_failed", 0) + 1
+                    continue
+                counters["samples_reproduced_checked"] = counters.get("samples_reproduced_checked", 0) + len(rep)
+                counters["membership_pairs_checked"] = counters.get("membership_pairs_checked", 0) + len(mem)
+                cscale = scale * (1.0 + (prm.get("L", 0.0) if prm.get("L", 0.0) < float("inf") else 0.0))
+                sigs.add("attain|%s|%d samples|%s" % (fcls, len(trip), sorted(prm)))
+                for what, d in mem:
+                    if oracles._grade(d, cscale, "CLARABEL") == "violated":
+                        counters["harness_interpolant_not_member"] = counters.get("harness_interpolant_not_member", 0) + 1
+                for what, d in rep:
+                    if oracles._grade(d, cscale, "CLARABEL") == "violated":
+                        key = "primal_instance_not_attained_by_a_real_member:" + fcls
+                        if len(viol) < 14 and not any(v["key"] == key for v in viol):
+                            viol.append({"key": key, "rng": sd, "attain_cls": cls, "scenario": {"cls": fcls},
+                                         "what": "%s%r: the solver's instance (value %.6g, %d samples) satisfies the generated constraints but "
+                                                 "the canonical interpolant of its samples does not pass through them: '%s' is off by %.3e "
+                                                 "(scale %.3g) - no member of the class has these samples"
+                                                 % (fcls, prm, val, len(trip), what, d, cscale)})
+                        break
+            counters["attainment_cases"] = counters.get("attainment_cases", 0) + 1
+
+
 def run_shard(spec):
     from pv.classes import CLASSES
     from pv import canon
@@ -282,7 +439,7 @@ def run_shard(spec):
     todo = []
     if "replay" in spec:
         w = spec["replay"]
-        todo = [(w["scenario"]["cls"], w["rng"])]
+        todo = [(w["scenario"]["cls"], w["rng"])] if not w.get("attain_cls") else []
     else:
         names = sorted(CLASSES)
         for ci, cls in enumerate(names):
@@ -368,5 +525,10 @@ def run_shard(spec):
             if len(samples) < 2:
                 samples.append({"rng": sd, "scenario": sc, "order": order, "n_samples": len(f.list_of_points),
                                 "n_generated": sum(got.values()), "n_reference": len(ref), "n_lmis": len(got_lmi)})
+    if "replay" not in spec or spec["replay"].get("attain_cls"):
+        try:
+            attainment(spec, counters, sigs, viol, spec.get("n_attain", 2))
+        except Exception as ex:
+            notes.append("attainment workload failed: %r" % (ex,))
     return {"counters": counters, "signatures": sorted(sigs), "samples": samples, "violations": viol,
             "observations": notes, "extra": {"shard_wall_s": round(time.time() - t0, 1), "classes": sorted(classes_seen)}}
